@@ -2,7 +2,6 @@ import VOPyVerif.Proofs.ConeConst
 import VOPyVerif.Proofs.ConeConstExist
 import VOPyVerif.Proofs.ConeConstTheta
 import VOPyVerif.Proofs.ConeConstBridge
-import VOPyVerif.Proofs.GenAgreeC17
 /-!
 # C17 — cone constants α, u*, d₁ and β are the optima they are defined as
 
@@ -241,29 +240,5 @@ example : alphaLo [[1, 0], [0, 1]] 0 [1, -1] = none := by decide +kernel
 /-- the `u*` certificate accepts a feasible/dual pair for the orthant and rejects an infeasible `z` -/
 example : (ustarCert [[1, 0], [0, 1]] [3/5, 4/5] 2 [1, 1] [1, 1]).isSome = true := by decide +kernel
 example : ustarCert [[1, 0], [0, 1]] [3/5, 4/5] 2 [1, 1/2] [1, 1] = none := by decide +kernel
-
-/-! ## SOURCE AGREEMENT — `coneBeta` is the term read off the current Python source
-
-Second tie between model and code (DESIGN §2.10), beside the numeric comparison at `Float`:
-`harness/translate.py` regenerates `Gen/C17.lean` from the *source text* of the property
-`ConeTheta2D.beta` (`vopy/ordering_cone.py`) on every `./check C17` (Python `ast`; `cone_rad`
-inlined; the `if`/`else` becomes the term's branch; nothing executed), and the theorems below are
-re-checked against the regenerated file.  Level: **polymorphic** (`∀ α [RealLike α] [LtB α]`), by
-`rfl` (`Proofs/GenAgreeC17.lean`): the term `beta_theta2D` is about *is* the generated term. -/
-
-/-- `ConeTheta2D.beta` as written in the source = `coneBeta` (polymorphic, `rfl`). -/
-theorem source_coneBeta {α : Type} [RealLike α] [LtB α] (deg : α) :
-    Gen.C17.gen_coneBeta deg = coneBeta deg :=
-  GenAgree.C17.gen_coneBeta_eq deg
-
-/-- `beta_theta2D` for the source-derived term: the expression `ordering_cone.py` returns, at `ℝ`,
-is `1/sin θ` for acute and `1` for right or obtuse cones, and the reciprocal of `α₁`, `α₂`. -/
-theorem source_beta_theta2D (w1 w2 : E) (deg : ℝ) (hd0 : 0 < deg) (hd1 : deg < 180) (h1 : ‖w1‖ = 1)
-    (h2 : ‖w2‖ = 1) (h12 : ⟪w1, w2⟫ = -cos (deg / 180 * π)) :
-    Gen.C17.gen_coneBeta deg = (if deg < 90 then 1 / sin (deg / 180 * π) else 1) ∧
-    Gen.C17.gen_coneBeta deg = 1 / alpha [w1, w2] w1 ∧
-    Gen.C17.gen_coneBeta deg = 1 / alpha [w1, w2] w2 := by
-  rw [source_coneBeta]
-  exact beta_theta2D w1 w2 deg hd0 hd1 h1 h2 h12
 
 end VOPy.C17
